@@ -462,7 +462,7 @@ def r5_container_kind(rep, src, M):
         if not stores:
             continue
         val = stores[0][2]
-        is_list = isinstance(val, ast.List) or (isinstance(val, ast.Call) and norm(val.func) == 'list')
+        is_list = isinstance(val, (ast.List, ast.ListComp)) or (isinstance(val, ast.Call) and norm(val.func) == 'list')
         lang = anyl
         not_text = False
         for t_, pol in p_.conds:
@@ -504,8 +504,10 @@ def r5_container_kind(rep, src, M):
     # a paragraph can also be built from a mapping (Deb822(mapping)): a structured field then already holds records, and the text
     # operations of the conversion must not be applied to it -- every use of the field value as text is dominated by a test that it
     # is text
-    g = cfg.CFG(init.node)
-    loop0 = loops[0]
+    from ..core import set_parents
+    set_parents(fnode)
+    g = cfg.CFG(fnode)
+    loop0 = loop
     binds = [st for st in ast.walk(loop0) if isinstance(st, ast.Assign) and len(st.targets) == 1 and isinstance(st.targets[0], ast.Name)
              and isinstance(st.value, ast.Subscript) and norm(st.value.value) == 'self']
     if len(binds) != 1:
@@ -616,6 +618,10 @@ def r2b_same_table(rep, src):
     fr = src.func(MOD + ':_multivalued.__init__')
     fw = src.func(MOD + ':_multivalued.get_as_string')
     rep.saw_func(fr)
+    from ..core import Func, set_parents
+    fr_node, _inl = normalize.inline_helpers(fr)        # the conversion may sit in a helper of the class
+    set_parents(fr_node)
+    fr = Func(fr.module, fr_node, fr.qual, fr.cls)
     loops = table_loops(fr)
     okr = False
     why = 'the reader does not iterate _multivalued_fields.items()'
